@@ -174,8 +174,9 @@ impl PaddingFactory {
 #[cfg(anytls_verif)]
 impl PaddingFactory {
     pub fn verif_reset_default() {
-        // the default factory is write-once: nothing can be reset here, which is why the checks
-        // that involve it run one case per process
+        let mut slot = DEFAULT_FACTORY.write().unwrap_or_else(|e| e.into_inner());
+        slot.factory = None;
+        slot.pushed = false;
     }
 }
 
